@@ -46,8 +46,28 @@ impl<'a, T> Park<'a, T> {
 impl<T> Drop for Park<'_, T> {
     fn drop(&mut self) {
         // wait the kernel finish
-        while self.wait_kernel.load(Ordering::Relaxed) {
-            yield_now();
+        // this must not be a cancellation point: `subscribe` is still using this park,
+        // a cancel panic from here would free it (it lives on the coroutine's stack)
+        if self.wait_kernel.load(Ordering::Relaxed) {
+            let cancel = if is_coroutine() {
+                Some(crate::coroutine_impl::current_cancel_data())
+            } else {
+                None
+            };
+            if let Some(c) = cancel.as_ref() {
+                c.disable_cancel();
+            }
+            while self.wait_kernel.load(Ordering::Relaxed) {
+                if std::thread::panicking() {
+                    // std counts panics per thread: no coroutine switch while we unwind
+                    std::thread::yield_now();
+                } else {
+                    yield_now();
+                }
+            }
+            if let Some(c) = cancel.as_ref() {
+                c.enable_cancel();
+            }
         }
     }
 }
